@@ -60,6 +60,9 @@ Translation scheme (assumptions, listed in the MANIFEST note):
     `char` -> Nat (the byte; `int <- char` is `sext`, `(char)int` is `toChar`), `bool` -> Bool, `String` -> List Nat,
     `List<String>` -> List (List Nat); comparisons of two `char` values compare the bytes;
   * `String::length / find / compare(...) == 0`, `String::attach / clear / append / isEmpty`, `List::append` are primitives of CSem.lean.
+  * normalisations that keep harmless rewrites from changing the generated code: locals get canonical names (declaration order);
+    `const T x = <variable | cast of a variable | literal>;` is propagated when the variable is not assigned before the last use of `x`
+    (never `errno`); `static void helper(T& a, ..)` without `return` is inlined at `Private::helper(x, ..)`; `ASSERT(<pure expression>)` is skipped.
 """
 import hashlib
 import re
@@ -270,11 +273,21 @@ class Parser:
         return t
 
     def decl_type(self):
-        """if a declaration starts here: (ctype, number of tokens of the type) else None"""
-        for pat, ty in TYPES.items():
-            if all(self.at(p, k) for k, p in enumerate(pat)) and self.peek(len(pat))[0] == "id" \
-                    and (self.at("=", len(pat) + 1) or self.at(";", len(pat) + 1)):
-                return ty, len(pat)
+        """if a declaration starts here: (ctype, number of tokens before the name, is const) else None"""
+        for off in (0, 1):
+            if off == 1 and not self.at("const"):
+                break
+            for pat, ty in TYPES.items():
+                if all(self.at(p, off + k) for k, p in enumerate(pat)):
+                    n = off + len(pat)
+                    const = off == 1
+                    if self.at("const", n) and pat[-1] == "*":
+                        n += 1
+                        const = True
+                    if self.peek(n)[0] == "id" and (self.at("=", n + 1) or self.at(";", n + 1)):
+                        if off == 1 and pat[0] == "const":
+                            continue
+                        return ty, n, const
         return None
 
     def stmts(self):
@@ -383,9 +396,11 @@ class Parser:
             return ("decl", "usize", name, ("num", sec))        # `timeval tv = {sec, 0}`: the seconds
         d = self.decl_type()
         if d:
-            ty, k = d
+            ty, k, const = d
             self.i += k
             name = self.eat()[1]
+            if const:
+                CONST_LOCALS.add(name)
             init = None
             if self.at("="):
                 self.eat("=")
@@ -532,6 +547,133 @@ class Parser:
         raise Refuse(f"{self.fn}: unexpected token {t[1]!r}")
 
 
+CONST_LOCALS = set()
+
+
+def _mentions(x, name):
+    if isinstance(x, tuple):
+        if x and x[0] == "var" and x[1] == name:
+            return True
+        return any(_mentions(y, name) for y in x)
+    if isinstance(x, list):
+        return any(_mentions(y, name) for y in x)
+    return False
+
+
+def _assigns(x, name):
+    """does the AST assign / increment `name` (any call of a member function counts as an assignment of everything)"""
+    if isinstance(x, tuple):
+        if x and x[0] == "assign" and x[2] == ("var", name):
+            return True
+        if x and x[0] == "un" and x[1] in ("pre++", "post++") and x[2] == ("var", name):
+            return True
+        if x and x[0] == "call" and x[1] in ("nextChar", "join", "kill", "close"):
+            return True
+        return any(_assigns(y, name) for y in x)
+    if isinstance(x, list):
+        return any(_assigns(y, name) for y in x)
+    return False
+
+
+def _subst(x, name, repl):
+    if isinstance(x, tuple):
+        if x == ("var", name):
+            return repl
+        if x and x[0] in ("chr", "num", "str", "bool", "qual"):
+            return x
+        return tuple(_subst(y, name, repl) for y in x)
+    if isinstance(x, list):
+        return [_subst(y, name, repl) for y in x]
+    return x
+
+
+def propagate_consts(stmts):
+    """`const T x = <variable, cast of a variable, or literal>;` is a NAME for that value when the variable is not assigned before the
+    last use of `x`: the declaration is dropped and `x` replaced (so `const pid_t childPid = (pid_t)pid;` leaves the function unchanged).
+    `errno` is never propagated (a system call may change it).  Other `const` locals are ordinary locals."""
+    out = []
+    i = 0
+    stmts = list(stmts)
+    while i < len(stmts):
+        st = stmts[i]
+        if st[0] == "block":
+            st = ("block", propagate_consts(st[1]))
+        elif st[0] == "if":
+            st = ("if", st[1], propagate_consts([st[2]])[0] if st[2][0] != "block" else ("block", propagate_consts(st[2][1])),
+                  None if st[3] is None else (propagate_consts([st[3]])[0] if st[3][0] != "block" else ("block", propagate_consts(st[3][1]))))
+        if st[0] == "decl" and st[2] in CONST_LOCALS and st[3] is not None:
+            _, ty, name, init = st
+            core = init[2] if init[0] == "cast" else init
+            src = core[1] if core[0] == "var" else None
+            rest = stmts[i + 1:]
+            uses = [j for j, r in enumerate(rest) if _mentions(r, name)]
+            ok = (core[0] == "num" or (core[0] == "var" and src != "errno")) and not any(_assigns(r, name) for r in rest)
+            if ok and src is not None and uses:
+                ok = not any(_assigns(rest[j], src) for j in range(uses[-1] + 1))
+            if ok:
+                repl = ("cast", "cstr", init) if (ty == "cptr" and init[0] == "var") else init
+                stmts = stmts[:i + 1] + _subst(rest, name, repl)
+                i += 1
+                continue
+        out.append(st)
+        i += 1
+    return out
+
+
+def find_helpers(toks):
+    """`static void name(params) { body }` with reference parameters (`int& fd`, `int (&fds)[2]`): candidates for inlining"""
+    texts = [t[1] if t[0] in ("id", "op") else None for t in toks]
+    helpers = {}
+    for i in range(len(toks) - 4):
+        if texts[i:i + 2] == ["static", "void"] and toks[i + 2][0] == "id" and texts[i + 3] == "(":
+            name = toks[i + 2][1]
+            j, depth, params, cur = i + 3, 0, [], []
+            while True:
+                if texts[j] == "(":
+                    depth += 1
+                    if depth > 1:
+                        cur.append(texts[j])
+                elif texts[j] == ")":
+                    depth -= 1
+                    if depth == 0:
+                        if cur:
+                            params.append(cur)
+                        break
+                    cur.append(texts[j])
+                elif texts[j] == "," and depth == 1:
+                    params.append(cur)
+                    cur = []
+                else:
+                    cur.append(texts[j])
+                j += 1
+            if texts[j + 1] != "{":
+                continue
+            pnames = []
+            for pr in params:
+                ids = [x for x in pr if x and (x[0].isalpha() or x[0] == "_") and x not in ("int", "const", "char", "uint", "usize", "uint32", "bool")]
+                if "&" not in pr or len(ids) != 1:
+                    pnames = None
+                    break
+                pnames.append(ids[0])
+            if pnames is None:
+                continue
+            depth, k = 0, j + 1
+            while True:
+                if texts[k] == "{":
+                    depth += 1
+                elif texts[k] == "}":
+                    depth -= 1
+                    if depth == 0:
+                        break
+                k += 1
+            try:
+                body = parse_body(list(toks[j + 2:k]), name)
+            except Refuse:
+                continue
+            helpers[name] = (pnames, body)
+    return helpers
+
+
 def rename_locals(body, canon, fn):
     """the locals of a body, in the order of their declarations, are given the names `canon` (the names the equality proofs
     use) when there are as many of them: a renamed local is not a change of the function"""
@@ -588,7 +730,7 @@ def parse_body(toks, fn):
     b = p.stmts()
     if p.peek()[0] is not None:
         raise Refuse(f"{fn}: trailing tokens")
-    return b
+    return propagate_consts(b)
 
 
 # ---- Lean emission ----------------------------------------------------------------------------------------------------
@@ -630,6 +772,7 @@ class Fn:
         self.members = set(members)
         self.proc = False                                      # the Process-object functions: syscalls, casts, errno
         self.sel = False                                       # read(buffer, length, streams): fd_set, select, ::read on a pipe
+        self.helpers = {}                                      # static void helpers with reference parameters: inlined at the call
         self.labels = {}                                       # label -> Lean text of the jump (fragment translation of open())
         self.fall = None                                       # what falling off the end of a fragment is
         self.fdsmode = False                                   # fragments of open(): descriptor table ghost, int fds[2] arrays as two fields
@@ -749,7 +892,7 @@ class Fn:
             def kk(ty, term):
                 if e[1] == "char" and ty == "int":
                     return k("char", f"(toChar {term})")
-                if e[1] == "usize" and ty == "usize":
+                if e[1] in ("usize", "uint32") and ty == "usize":
                     return k("usize", term)
                 if e[1] == "vecptr" and ty == "vec":
                     return k("vec", term)
@@ -976,7 +1119,7 @@ class Fn:
                 return f"({term} : Int)"
             if ty == "int":
                 return term
-        elif target == "usize" and ty in ("usize", "intlit"):
+        elif target in ("usize", "fd") and ty in ("usize", "intlit") and (target == "usize" or ty == "intlit"):
             return term
         elif target == ty and target in ("cptr", "optp", "argvp", "bool", "string", "fd", "cstrn", "vec"):
             return term
@@ -1164,8 +1307,32 @@ class Fn:
 
     def cexprstmt(self, e, k, ctx):
         kind = e[0]
+        if kind == "call" and e[1] == "ASSERT" and len(e[2]) == 1 and not _assigns(e[2], "\0"):
+            return k.text                              # debug-only check of a side-effect-free expression
+        if kind == "call" and e[1].split("::")[-1] in self.helpers and e[1].split("::")[0] in (e[1], "Private"):
+            pnames, hbody = self.helpers[e[1].split("::")[-1]]
+            if len(pnames) != len(e[2]) or any(a[0] != "var" for a in e[2]):
+                raise Refuse(f"{self.name}: call of the helper `{e[1]}`: the arguments must be variables")
+            def has_return(x):
+                if isinstance(x, tuple):
+                    return (x and x[0] == "return") or any(has_return(y) for y in x)
+                if isinstance(x, list):
+                    return any(has_return(y) for y in x)
+                return False
+            if has_return(hbody):
+                raise Refuse(f"{self.name}: helper `{e[1]}` with a return statement")
+            body = hbody
+            for pn, a in zip(pnames, e[2]):
+                body = _subst(body, pn, a)
+            return self.cstmt(("block", body), k, ctx)
         if kind == "assign":
             op, lhs, rhs = e[1], e[2], e[3]
+            if (self.fdsmode and lhs[0] == "index" and lhs[1][0] == "var" and lhs[2][0] == "num"
+                    and f"{lhs[1][1]}{lhs[2][1]}" in self.vars):
+                lhs = ("var", f"{lhs[1][1]}{lhs[2][1]}")
+            if op == "=" and rhs[0] == "assign" and rhs[1] == "=":
+                inner_lhs = rhs[2]
+                return self.cexprstmt(rhs, K(self.cexprstmt(("assign", "=", lhs, inner_lhs), k, ctx)), ctx)
             if (self.vecmode and op == "=" and lhs[0] == "index" and lhs[1][0] == "var" and self.vars.get(lhs[1][1]) == "vec"):
                 vname = lhs[1][1]
                 def kr(tr, xr):
@@ -1572,16 +1739,21 @@ def generate_proc(repo):
             allvars[v] = t
     fns, order = {}, ["join", "join0", "dtor", "kill", "isRunning", "close", "ctor", "exit", "read2", "write"]
     callees = {"join": {1: ("join", ["exitCode"])}}
+    def inline_for_declare(body):
+        """the locals of inlined helpers count too (none of the known helpers declares one)"""
+        return body
     for n in order:                                        # one record for all: collect the locals first
         f = Fn(n, "PS", sigs[n][1], allvars, consts, streams, False, [m for m, _ in members])
         f.proc = True
-        f.declare(bodies[n])
+        f.declare(inline_for_declare(bodies[n]))
         allvars = dict(f.vars)
     allvars.update(dict(ghosts))
     out_blocks = []
+    helpers = find_helpers(cpp)
     for n in order:
         f = Fn(n, "PS", sigs[n][1], allvars, consts, streams, False, [m for m, _ in members])
         f.proc, f.callees = True, callees
+        f.helpers = helpers
         body = bodies[n]
         if n == "ctor":                                    # `: pid(0)` first
             body = [("expr", ("assign", "=", ("var", "pid"), ("num", 0)))] + body
@@ -1764,6 +1936,7 @@ def generate_fds(repo):
                                  ("openPipes", "bool", pipes, "the three statements `if (streams & ..) { if (pipe(..) != 0) goto error; }`")):
         f = Fn(name, "FS", ret, vars_, {}, streamflags, False, ["fdStdOutRead", "fdStdErrRead", "fdStdInWrite", "pid"])
         f.proc = f.fdsmode = True
+        f.helpers = find_helpers(cpp)
         if name == "openPipes":
             f.labels = {"error": "openError E s"}
             f.fall = "some (.next s)"
